@@ -59,6 +59,29 @@ pub fn gen_random(seed: u64, idx: u64) -> Plan {
                 c.read_gap_ms = r.range(1, 5);
             }
         }
+        if r.chance(1, 8) {
+            // an HTTP/2 connection with overlapping streams; as a victim it
+            // drops all of them at once
+            c.kind = ConnKind::H2;
+            let n = r.usize_in(2, 5);
+            let mut longest = 0;
+            for j in 0..n {
+                let mut w = gen_work_req(&mut r, nonce, false);
+                w.chunked = None;
+                w.resp_bytes = w.resp_bytes.min(5000);
+                nonce += 1;
+                longest = longest.max(u64::from(w.steps) * w.step_ms);
+                c.h2.push(w.h2(j, r.range(0, 30)));
+                c.reqs.push(w.plan());
+            }
+            if victims < max_victims && r.chance(1, 2) {
+                victims += 1;
+                c.steps.push(Step::Until { ms: c.start_ms + r.range(40, longest + 200) });
+                c.steps.push(if r.chance(1, 2) { Step::Close } else { Step::Reset });
+            }
+            conns.push(c);
+            continue;
+        }
         let nreq = r.usize_in(1, 3);
         let pipelined = nreq > 1 && r.chance(1, 3);
         let panic_req = if r.chance(1, 10) { Some(r.usize_in(0, nreq - 1)) } else { None };
@@ -255,6 +278,7 @@ impl Scenario for C16 {
             "cancel_rule_applied",
             "pipelined_disconnect_not_observed",
             "planned_panic_fired",
+            "h2_disconnect_while_streams_running",
         ]
     }
 
@@ -406,6 +430,51 @@ pub fn check_c16(
                     });
                 }
             }
+        }
+        if cp.kind == ConnKind::H2 {
+            let leaving = disrupted_at.is_some();
+            if let (true, Some(conn_id)) = (leaving, obs.conn_id) {
+                if let Some((dseq, dt)) = disc.get(&conn_id).copied() {
+                    for rq in &cp.reqs {
+                        let (Some(h), Expect::Work { steps, step_ms, .. }) = (hist.get(&rq.nonce), &rq.expect) else { continue };
+                        let Some((eseq, et)) = h.enter.first().copied() else { continue };
+                        let term = h.terminal.first().copied();
+                        if eseq < dseq && term.map(|t| t.0 > dseq).unwrap_or(true) {
+                            probe("h2_disconnect_while_streams_running");
+                            let remaining = (et + u64::from(*steps) * step_ms).saturating_sub(dt);
+                            if plan.server.mode == Mode::Cancel && remaining >= 1000 {
+                                probe("cancel_rule_applied");
+                                let ok = term.map(|t| t.2 == Ev::HandlerDropped && t.1 <= dt + 100).unwrap_or(false)
+                                    && !h.steps.iter().any(|s| s.1 > dt + 100);
+                                if !ok {
+                                    v.push(Violation {
+                                        rule: "c16.cancel_cancels".into(),
+                                        detail: format!(
+                                            "cancel mode, HTTP/2: connection of stream nonce {} went away at {} ms with {} ms of handler work left but the handler ended {:?}",
+                                            rq.nonce, dt, remaining, term
+                                        ),
+                                    });
+                                }
+                            }
+                        }
+                    }
+                }
+            } else if !leaving {
+                for (k, rq) in cp.reqs.iter().enumerate() {
+                    match &obs.by_req[k] {
+                        Some(r) => {
+                            if let Err(e) = work_response_ok(rq, &r.resp) {
+                                v.push(Violation { rule: "c16.bystander".into(), detail: format!("conn {ci} h2 stream {k}: {e}") });
+                            }
+                        }
+                        None => v.push(Violation {
+                            rule: "c16.bystander".into(),
+                            detail: format!("conn {ci} h2 stream {k} (nonce {}) of a client that stayed got no response: {:?}", rq.nonce, obs.h2_err[k]),
+                        }),
+                    }
+                }
+            }
+            continue;
         }
         // classify the disconnect for reach probes and rule 3
         if let (Some(pos), Some(conn_id)) = (disrupted_at, obs.conn_id) {
